@@ -4,7 +4,10 @@
 //! model-checking harness. No logic lives here.
 
 pub use crate::{
-    crypto::noise::{handshake, HandshakeTransport, NoiseSocket, MAX_FRAME_LEN},
+    crypto::noise::{
+        handshake, verif::Resolver as NoiseResolver, HandshakeTransport, NoiseSocket, MAX_FRAME_LEN,
+    },
+    transport::tcp::verif as tcp,
     multistream_select::{
         dialer_select_proto, listener_select_proto, webrtc_listener_negotiate, HandshakeResult,
         HeaderLine, ListenerSelectResult, Message, Negotiated, NegotiationError, Protocol,
